@@ -224,7 +224,7 @@ def hEpoch : Handler := fun j => do
     let c01why : String := (c01r.map (·.1)).getD ""
     let c01sig : String := (c01r.map (·.2)).getD ""
     let c09why : String := if !inputOk then "" else (let q := PopSpec.quotasWhy ap n; if q != "" then q else PopSpec.parentsWhy o p ap)
-    let c10why : String := if !inputOk then "" else PopSpec.championWhy bitEq ap a
+    let c10why : String := if !inputOk then "" else (let q := PopSpec.championWhy bitEq ap a; if q != "" then q else PopSpec.fittestWhy bitEq p ap a)
     let c03why : String := if !inputOk then "" else PopSpec.innovWhy p a
     let structural := a.species.any (fun s => s.orgs.any (·.mutStructBaby))
     return { corr := corr, spec := c02why == "" && c01why == "" && c09why == "" && c10why == "" && c03why == "",
